@@ -862,6 +862,11 @@ func ruleLoadFilter(c *Ctx, r *R) {
 					if v, ok := c.ConstString(x.Y); ok && v == "" && x.Op == token.EQL {
 						skipsBlank = true
 					}
+				case *ast.ForStmt:
+					// `for line != "" { .. }`: a blank line runs no iteration and so is skipped
+					if c.strNonEmpty(x.Cond) != nil {
+						skipsBlank = true
+					}
 				}
 				return true
 			})
@@ -871,6 +876,40 @@ func ruleLoadFilter(c *Ctx, r *R) {
 			return true
 		})
 		r.check(header, "constraint header", c.Pos(cf), "blank lines and comments before the constraint are skipped", "checkConstraint only looks at the first line of the file: a //go:build line that follows a copyright/licence comment (allowed by Go) is ignored, so a file excluded for goat is loaded — its init runs, or it raises a false `multiple packages` conflict")
+		// what follows the end of a block comment on the same line is looked at again (code
+		// there ends the header; a later //go:build in the body must not exclude the file)
+		afterBlock := false
+		ast.Inspect(cf.Body, func(n ast.Node) bool {
+			as, ok := n.(*ast.AssignStmt)
+			if !ok || len(as.Rhs) != 1 || len(as.Lhs) != 3 {
+				return true
+			}
+			call, ok := unparen(as.Rhs[0]).(*ast.CallExpr)
+			if !ok || c.CalleeName(call) != "strings.Cut" || len(call.Args) != 2 {
+				return true
+			}
+			if v, ok := c.ConstString(call.Args[1]); !ok || v != "*/" {
+				return true
+			}
+			rid, ok := as.Lhs[1].(*ast.Ident)
+			if !ok || rid.Name == "_" {
+				return true
+			}
+			ro := c.Obj(rid)
+			ast.Inspect(cf.Body, func(m ast.Node) bool {
+				if a2, ok := m.(*ast.AssignStmt); ok && len(a2.Lhs) == 1 && len(a2.Rhs) == 1 && nosp(c.Src(a2.Lhs[0])) == nosp(c.Src(call.Args[0])) {
+					ast.Inspect(a2.Rhs[0], func(k ast.Node) bool {
+						if id, ok := k.(*ast.Ident); ok && c.Obj(id) == ro {
+							afterBlock = true
+						}
+						return true
+					})
+				}
+				return true
+			})
+			return true
+		})
+		r.check(afterBlock, "block comment remainder", c.Pos(cf), "the text after the end of a block comment is examined as the rest of the line", "checkConstraint treats a line that starts with /* as comment to its end: `/* generated */ package main` does not end the header, so a //go:build line further down (inside the code) excludes a file Go would build")
 		r.check(tagOK, "tag predicate", c.Pos(cf), `only the tag "goat" is set`, `the build-constraint evaluator's tag predicate is not exactly t == "goat"`)
 		ast.Inspect(cf.Body, func(n ast.Node) bool {
 			if rs, ok := n.(*ast.ReturnStmt); ok && len(rs.Results) == 2 && isIdent(rs.Results[0], "true") && isIdent(rs.Results[1], "nil") {
